@@ -17,9 +17,7 @@ import (
 	"google.golang.org/genproto/googleapis/api/annotations"
 	"google.golang.org/genproto/googleapis/api/serviceconfig"
 	"google.golang.org/grpc"
-	"google.golang.org/grpc/codes"
 	"google.golang.org/grpc/metadata"
-	"google.golang.org/grpc/status"
 	"google.golang.org/protobuf/encoding/protojson"
 	"google.golang.org/protobuf/proto"
 	"google.golang.org/protobuf/reflect/protoreflect"
@@ -55,6 +53,8 @@ type RuleSpec struct {
 	// configuration overrides the annotation).
 	Via string   `json:"via,omitempty"`
 	Ann *annSpec `json:"ann,omitempty"`
+	// Stream: "" unary, "client", "server" or "bidi" streaming method.
+	Stream string `json:"stream,omitempty"`
 }
 
 type annSpec struct {
@@ -132,6 +132,8 @@ type recorder struct {
 	// grpc.SendHeader (headers sent early), "send-header-empty",
 	// "set-header+send-header", "set-trailer".
 	hdrMode string
+	// streamMode: how the streaming handler obtains / answers messages.
+	streamMode string
 }
 
 func (rc *recorder) setHdrMode(m string) {
@@ -201,33 +203,91 @@ func (rc *recorder) Unary(ctx context.Context, md protoreflect.MethodDescriptor,
 	return out, nil
 }
 
-// Stream records every message of a client stream and answers each with a
-// small reply (so that a client can wait until a message has been handled).
+// Stream is the streaming handler. It records every request message it
+// obtains. streamMode selects HOW a handler obtains the first message:
+// "" stream.RecvMsg (looping until io.EOF on client streams), or
+// "as-body-reader" larking.AsHTTPBodyReader (client-streaming HttpBody
+// uploads); "as-body-writer" answers a server-streaming HttpBody method
+// through larking.AsHTTPBodyWriter. Bidi streams acknowledge every message.
 func (rc *recorder) Stream(md protoreflect.MethodDescriptor, ss grpc.ServerStream) error {
-	if !md.IsStreamingClient() || !md.IsStreamingServer() {
-		return status.Error(codes.Unimplemented, "transcode engine only handles bidi streams")
-	}
-	for n := 0; ; n++ {
-		in := vschema.NewMsg(md.Input())
-		if err := ss.RecvMsg(in); err != nil {
-			if err == io.EOF {
-				return nil
-			}
-			return err
-		}
+	rc.mu.Lock()
+	mode := rc.streamMode
+	rc.mu.Unlock()
+	record := func(in proto.Message) {
 		rc.mu.Lock()
 		rc.calls = append(rc.calls, call{method: vschema.FullMethod(md), msg: cloneMsg(in)})
 		rc.mu.Unlock()
+	}
+	reply := func(n int) proto.Message {
 		out := vschema.NewMsg(md.Output())
-		if fd := md.Output().Fields().ByName("text"); fd != nil && fd.Kind() == protoreflect.StringKind {
-			out.ProtoReflect().Set(fd, protoreflect.ValueOfString(fmt.Sprintf("ack-%d", n)))
-		} else if fd := md.Output().Fields().ByName("tag"); fd != nil && fd.Kind() == protoreflect.StringKind {
-			out.ProtoReflect().Set(fd, protoreflect.ValueOfString(fmt.Sprintf("ack-%d", n)))
+		r := out.ProtoReflect()
+		switch {
+		case md.Output().FullName() == "google.api.HttpBody":
+			r.Set(md.Output().Fields().ByName("content_type"), protoreflect.ValueOfString("text/plain"))
+			r.Set(md.Output().Fields().ByName("data"), protoreflect.ValueOfBytes([]byte(fmt.Sprintf("ack-%d", n))))
+		case md.Output().Fields().ByName("text") != nil && md.Output().Fields().ByName("text").Kind() == protoreflect.StringKind:
+			r.Set(md.Output().Fields().ByName("text"), protoreflect.ValueOfString(fmt.Sprintf("ack-%d", n)))
+		case md.Output().Fields().ByName("tag") != nil && md.Output().Fields().ByName("tag").Kind() == protoreflect.StringKind:
+			r.Set(md.Output().Fields().ByName("tag"), protoreflect.ValueOfString(fmt.Sprintf("ack-%d", n)))
 		}
-		if err := ss.SendMsg(out); err != nil {
+		return out
+	}
+	cs, sstr := md.IsStreamingClient(), md.IsStreamingServer()
+	if cs && mode == "as-body-reader" {
+		in := vschema.NewMsg(md.Input())
+		rd, err := larking.AsHTTPBodyReader(ss, in)
+		if err != nil {
 			return err
 		}
+		record(in)
+		if _, err := io.Copy(io.Discard, rd); err != nil {
+			return err
+		}
+		return ss.SendMsg(reply(0))
 	}
+	n := 0
+	for {
+		in := vschema.NewMsg(md.Input())
+		if err := ss.RecvMsg(in); err != nil {
+			if err == io.EOF {
+				break
+			}
+			return err
+		}
+		record(in)
+		n++
+		if !cs {
+			break
+		}
+		if sstr {
+			if err := ss.SendMsg(reply(n - 1)); err != nil {
+				return err
+			}
+		}
+	}
+	switch {
+	case sstr && !cs:
+		if mode == "as-body-writer" && md.Output().FullName() == "google.api.HttpBody" {
+			hdr := vschema.NewMsg(md.Output())
+			hdr.ProtoReflect().Set(md.Output().Fields().ByName("content_type"), protoreflect.ValueOfString("application/x-download"))
+			w, err := larking.AsHTTPBodyWriter(ss, hdr)
+			if err != nil {
+				return err
+			}
+			_, err = w.Write([]byte("downloaded bytes"))
+			return err
+		}
+		return ss.SendMsg(reply(0))
+	case cs && !sstr:
+		return ss.SendMsg(reply(n))
+	}
+	return nil
+}
+
+func (rc *recorder) setStreamMode(m string) {
+	rc.mu.Lock()
+	rc.streamMode = m
+	rc.mu.Unlock()
 }
 
 func (rc *recorder) peek() []call {
@@ -391,6 +451,14 @@ func buildDynamic(rules []RuleSpec, kind string) (*env, error) {
 		m := vschema.Method{Name: fmt.Sprintf("Me%d", i), In: r.In, Out: r.Out, Rule: r.annotation()}
 		if r.isWebsocket() {
 			m.CS, m.SS = true, true // websocket bindings live on bidi methods
+		}
+		switch r.Stream {
+		case "client":
+			m.CS = true
+		case "server":
+			m.SS = true
+		case "bidi":
+			m.CS, m.SS = true, true
 		}
 		if r.Resp == "" && r.Via != "config" {
 			main.Methods = append(main.Methods, m)
